@@ -2361,7 +2361,9 @@ void QXmppIceComponent::transactionFinished()
     }
 
     // STUN checks
-    QXmppIceTransport *transport = d->stunTransactions.value(transaction).transport;
+    // the transaction is over whatever its outcome and is deleted: forget it
+    // before any of the early returns below
+    QXmppIceTransport *transport = d->stunTransactions.take(transaction).transport;
     if (transport) {
         const QXmppStunMessage response = transaction->response();
         if (response.messageClass() == QXmppStunMessage::Response) {
@@ -2376,6 +2378,7 @@ void QXmppIceComponent::transactionFinished()
                 reflexivePort = response.mappedPort;
             } else {
                 warning(u"STUN server did not provide a reflexive address"_s);
+                updateGatheringState();
                 return;
             }
 
@@ -2384,6 +2387,7 @@ void QXmppIceComponent::transactionFinished()
                 if (candidate.host() == reflexiveHost &&
                     candidate.port() == reflexivePort &&
                     candidate.type() == QXmppJingleCandidate::ServerReflexiveType) {
+                    updateGatheringState();
                     return;
                 }
             }
@@ -2409,7 +2413,6 @@ void QXmppIceComponent::transactionFinished()
         } else {
             debug(u"STUN test failed (error %1)"_s.arg(transaction->response().errorPhrase));
         }
-        d->stunTransactions.remove(transaction);
         updateGatheringState();
         return;
     }
